@@ -1,6 +1,7 @@
 import PgVerif.Proofs.NDSound
 import PgVerif.Proofs.Chart
 import PgVerif.Proofs.SPPF
+import PgVerif.Proofs.GLRSound
 /-!
 # C17 — with consume_input off, results parse sentence prefixes
 
@@ -37,5 +38,13 @@ theorem C17_reference_prefix_sppf_exact (g : Grammar) (inp : Input) (hin : Input
     (alts : List PAlt) (h : sppfAlts g inp fuel false = some alts) (a : PAlt) :
     a ∈ alts ↔ Useful g inp false (a.A, a.i, a.j) ∧ PackedAlt g inp a :=
   sppfAlts_correct hin fuel false alts h a
+
+/-- The GLR driver model with `consume_input` off: whenever it answers with a forest, a prefix of the
+input ending at a token boundary derives from the start symbol — for every well-formed table, input,
+recognizer behaviour (layout skipping idempotent) and fuel. -/
+theorem C17_glr_model_prefix_sound (g : Grammar) (T : Table) (inp : Input) (hw : T.wf g = true)
+    (hidem : ∀ p, inp.skip (inp.skip p) = inp.skip p) (consume lexDis : Bool) (fuel : Nat) (sF : GLR.GState)
+    (h : GLR.parseGLR g T inp consume lexDis fuel = .forest sF) : ∃ t, IsPrefixParseOf g inp t :=
+  (GLR.parseGLR_sound hw hidem consume lexDis fuel sF h).1
 
 end Pg
